@@ -244,7 +244,7 @@ def build_life(rng: random.Random, k: int, pool: list, cfg: dict, phase: int, ar
         if use["public"]:
             body.append({"op": "USE_PUBLIC", "h": h, "fn": m["public_fn"], "backend": "numpy"})
         if use["derive"] and not m["large"]:
-            how = rng.choice(["comp", "minus", "reload", "reload", "comp", "minus", "reload", "simplify", "nosing"])
+            how = rng.choice(["comp", "minus", "reload", "reload", "comp", "minus", "reload", "comp", "minus", "reload", "simplify", "nosing"])
             h2 = "%sd" % h
             body.append({"op": "DERIVE", "h": h, "new": h2, "how": how, "ci": m["comp_ci"]})
             body.append({"op": "GEN", "h": h2, "opts": m["optsets"][0]})
@@ -342,9 +342,10 @@ def group_observations(results: list) -> dict:
     """key -> list of observation dicts, in (life, op index) order."""
     groups: dict = {}
     for r in results:
-        if r.get("timed_out"):
-            continue
+        taint = r.get("tainted_from")
         for ev in r["events"]:
+            if taint is not None and ev["i"] >= taint:
+                break  # from the first op timeout on, a life is not judged (load-dependent)
             if "key" in ev and "digest" in ev and ev["status"] != "timeout" and not ev.get("skip"):
                 groups.setdefault(ev["key"], []).append(
                     {"life": r["life"], "hash_key": r["hash_key"], "i": ev["i"], "digest": ev["digest"],
